@@ -217,6 +217,11 @@ func init() {
 			// keepalive pings (which consume sequence numbers) during an idle
 			// gap between two bursts, ping interval below the resend timeout
 			{Scenario: "burst2/N=2/k=2", Budgets: bs(B(0, 2)), Split: 1},
+			// the two ends have different resend timeouts (as diverging
+			// adaptive timeouts do): the NACK back-off of one side against
+			// the retransmission period of the other
+			{Scenario: "prog/N=1/k=2/R=300ms/RS=2s", Budgets: bs(B(0, 2)), Split: 1},
+			{Scenario: "prog/N=1/k=2/R=2s/RS=300ms", Budgets: bs(B(0, 2)), Split: 1},
 			// a receiving application that starts late (back-pressure: more
 			// than a window of messages arrives before the first Recv)
 			{Scenario: "prog/N=2/k=6/rpre=4s", Budgets: bs(B(0, 1)), Split: 1},
@@ -230,6 +235,9 @@ func init() {
 			{Scenario: "prog/N=2/k=2/R=200ms", Budgets: bs(B(1, 1), B(0, 3)), Split: 2},
 			{Scenario: "prog/N=2/k=3/ka=2s,1s", Budgets: bs(B(1, 1), B(0, 2)), Split: 2},
 			{Scenario: "prog/N=2/k=3/ka=5s,3s", Budgets: bs(B(0, 2)), Split: 1},
+			{Scenario: "prog/N=2/k=3/R=300ms/RS=2s", Budgets: bs(B(0, 3)), Split: 2},
+			{Scenario: "prog/kind=bidi/N=1/k=2/R=2s/RS=300ms", Budgets: bs(B(0, 3)), Split: 1},
+			{Scenario: "prog/N=2/k=6/rpre=4s", Budgets: bs(B(1, 1), B(0, 2)), Split: 1},
 			{Scenario: "prog/N=1/k=3", Budgets: bs(B(1, 3), B(2, 1)), Split: 2},
 			{Scenario: "prog/N=2/k=4", Budgets: bs(B(1, 2), B(0, 3)), Split: 2},
 			{Scenario: "prog/kind=bidi/N=2/k=2", Budgets: bs(B(1, 2), B(0, 3)), Split: 2},
@@ -288,6 +296,10 @@ func init() {
 		quick: []Job{
 			{Scenario: "inject/N=2/k=4", Budgets: bs(B(0, 1)), Split: 1},
 			{Scenario: "inject/N=1/k=3", Budgets: bs(B(0, 1)), Split: 1},
+			// a forged ACK/NACK of every value plus one dropped packet: the
+			// bookkeeping the forgery leaves behind is then used by a
+			// retransmission
+			{Scenario: "inject/N=2/k=3/alpha=acks", Budgets: bs(B(0, 2)), Split: 1},
 			{Scenario: "synN(all 256 window bytes)", Scenarios: synNBatch(), Budgets: bs(B(0, 0))},
 		},
 		thorough: []Job{
@@ -295,6 +307,9 @@ func init() {
 			{Scenario: "inject/N=1/k=3", Budgets: bs(B(1, 1)), Split: 2},
 			{Scenario: "inject/N=3/k=6", Budgets: bs(B(0, 1)), Split: 1},
 			{Scenario: "inject/N=20/k=3", Budgets: bs(B(0, 1)), Split: 1},
+			{Scenario: "inject/N=2/k=3/alpha=acks", Budgets: bs(B(1, 2), B(0, 3)), Split: 2},
+			{Scenario: "inject/N=1/k=3/alpha=acks", Budgets: bs(B(0, 3)), Split: 1},
+			{Scenario: "inject/N=3/k=5/alpha=acks", Budgets: bs(B(0, 2)), Split: 1},
 			{Scenario: "synN(all 256 window bytes)", Scenarios: synNBatch(), Budgets: bs(B(1, 0)), Split: 1},
 		},
 		quickS: 240, thoroughS: 1200,
